@@ -1,1 +1,47 @@
-fn main() { println!("ok"); }
+//! Verification harness for dfinity/bitcoin-canister.
+//!
+//!   verif-harness run <scenarios.ndjson> <trace-out.ndjson>
+//!       executes every scenario (one JSON object per line) against the real canister and writes
+//!       the recorded events; each scenario starts with a `universe` event.
+mod concrete;
+mod exec;
+
+use std::io::{BufRead, Write};
+
+fn main() {
+    let args: Vec<String> = std::env::args().collect();
+    if args.len() < 2 {
+        eprintln!("usage: verif-harness run <scenarios.ndjson> <trace-out.ndjson>");
+        std::process::exit(2);
+    }
+    match args[1].as_str() {
+        "run" => {
+            exec::install_panic_hook();
+            let input = std::fs::File::open(&args[2]).expect("open scenarios");
+            let mut out = std::io::BufWriter::new(std::fs::File::create(&args[3]).expect("create trace"));
+            let mut n = 0;
+            for line in std::io::BufReader::new(input).lines() {
+                let line = line.unwrap();
+                if line.trim().is_empty() {
+                    continue;
+                }
+                let sc: exec::Scenario = serde_json::from_str(&line).expect("scenario json");
+                let mut e = exec::Exec::new(&sc);
+                e.run(&sc.cmds);
+                let mut h = e.header_event();
+                h["name"] = serde_json::json!(sc.name);
+                writeln!(out, "{}", h).unwrap();
+                for ev in &e.events {
+                    writeln!(out, "{}", ev).unwrap();
+                }
+                n += 1;
+            }
+            out.flush().unwrap();
+            eprintln!("executed {n} scenarios");
+        }
+        other => {
+            eprintln!("unknown subcommand {other}");
+            std::process::exit(2);
+        }
+    }
+}
